@@ -7,34 +7,31 @@ EXTENDS FlvTag
 AllBytes == 0..255
 SomeTraits == {0, 1, 2, 4, 6, 8, 10, 12, 14, 15, 16, 128, 251, 255}
 
-McAudioFrames ==
-       AudioFramesOf([fbs |-> AllBytes, aac |-> SomeTraits, opus |-> SomeTraits, rates |-> OpusRates,
+McAudioParams == {
+       ([fbs |-> AllBytes, aac |-> SomeTraits, opus |-> SomeTraits, rates |-> OpusRates,
                       levels |-> {0, 1, 255, 256, 65535}, dl |-> {0, 1}, al |-> {}, ids |-> {3}])
-  \cup AudioFramesOf([fbs |-> {160, 166, 175, 208, 211}, aac |-> AllBytes, opus |-> AllBytes, rates |-> {8, 12, 48},
+       , ([fbs |-> {160, 166, 175, 208, 211}, aac |-> AllBytes, opus |-> AllBytes, rates |-> {8, 12, 48},
                       levels |-> {1, 65534}, dl |-> {0, 2}, al |-> {}, ids |-> {5}])
-  \cup AudioFramesOf([fbs |-> {208, 210}, aac |-> {}, opus |-> {4, 6, 12, 14}, rates |-> AllBytes,
+       , ([fbs |-> {208, 210}, aac |-> {}, opus |-> {4, 6, 12, 14}, rates |-> AllBytes,
                       levels |-> {258}, dl |-> {0, 1}, al |-> {}, ids |-> {6}])
-  \cup AudioFramesOf([fbs |-> {0, 47, 175, 209, 255}, aac |-> {1}, opus |-> {2, 14}, rates |-> {24},
-                      levels |-> {513}, dl |-> {}, al |-> {40}, ids |-> {7}])
+       , ([fbs |-> {0, 47, 175, 209, 255}, aac |-> {1}, opus |-> {2, 14}, rates |-> {24},
+                      levels |-> {513}, dl |-> {}, al |-> {40}, ids |-> {7}]) }
 
-McVideoFrames ==
-       VideoFramesOf([fbs |-> AllBytes, traits |-> {0, 1, 2, 255}, ctss |-> {0, 1, 256, 65536, 16777215},
+McVideoParams == {
+       ([fbs |-> AllBytes, traits |-> {0, 1, 2, 255}, ctss |-> {0, 1, 256, 65536, 16777215},
                       dl |-> {0, 1}, al |-> {}, ids |-> {3}])
-  \cup VideoFramesOf([fbs |-> {23, 28, 39, 252}, traits |-> AllBytes, ctss |-> {0, 1193046, 8388608},
+       , ([fbs |-> {23, 28, 39, 252}, traits |-> AllBytes, ctss |-> {0, 1193046, 8388608},
                       dl |-> {0, 2}, al |-> {}, ids |-> {5}])
-  \cup VideoFramesOf([fbs |-> {18, 23, 44}, traits |-> {1}, ctss |-> {66051}, dl |-> {}, al |-> {40}, ids |-> {7}])
+       , ([fbs |-> {18, 23, 44}, traits |-> {1}, ctss |-> {66051}, dl |-> {}, al |-> {40}, ids |-> {7}]) }
 
 \* bodies from an arbitrary writer: too short, just long enough, Opus side fields cut anywhere,
 \* Opus first bytes with non-zero rate bits
 McTails == {<<>>, <<16>>, <<48, 1>>, <<12, 255, 254>>, <<24, 0, 1, 9>>, <<8, 7, 6, 5, 4>>}
-McAudioBodies ==
-       BodiesOf(AllBytes, SomeTraits, McTails)
-  \cup BodiesOf({160, 175, 208, 211, 212, 223}, AllBytes, {<<>>, <<8>>, <<48, 2, 1, 7>>})
-  \cup {<<>>, <<175>>, <<208>>, <<34>>}
-McVideoBodies ==
-       BodiesOf(AllBytes, {0, 1, 2, 255}, McTails)
-  \cup BodiesOf({23, 28, 39, 252}, AllBytes, {<<0, 0>>, <<0, 0, 1>>, <<1, 2, 3, 4>>})
-  \cup {<<>>, <<23>>, <<18, 1, 2, 3>>}
+McAudioBodies == { <<AllBytes, SomeTraits, McTails>>,
+                   <<{160, 175, 208, 211, 212, 223}, AllBytes, {<<>>, <<8>>, <<48, 2, 1, 7>>}>> }
+McVideoBodies == { <<AllBytes, {0, 1, 2, 255}, McTails>>,
+                   <<{23, 28, 39, 252}, AllBytes, {<<0, 0>>, <<0, 0, 1>>, <<1, 2, 3, 4>>}>> }
+McShortBodies == {<<>>, <<175>>, <<208>>, <<23>>}
 
 ASSUME RateTables
 =============================================================================
